@@ -51,11 +51,25 @@ FUNCTIONS = [
     ("json_pointer.c", "is_valid_index"),
     ("arraylist.c", "array_list_del_idx"),
     ("json_util.c", "json_object_from_fd_ex"),
+    ("json_tokener.c", "json_tokener_validate_utf8"),
+    ("json_util.c", "json_parse_int64"),
 ]
 
 
 class Untranslatable(Exception):
     pass
+
+
+LEAN_KEYWORDS = {"end", "at", "by", "do", "fun", "have", "from", "in", "let", "match", "then", "else", "if", "open", "where", "with",
+                 "instance", "show", "this", "calc", "def", "theorem", "structure", "class", "namespace", "section", "variable",
+                 "import", "export", "mutual", "deriving", "for", "unless", "return", "try", "catch", "finally", "macro", "syntax",
+                 "notation", "prefix", "infix", "postfix", "set_option", "universe", "local", "private", "protected", "noncomputable",
+                 "partial", "unsafe", "example", "abbrev", "axiom", "inductive", "extends", "Type", "Prop", "Sort", "fuel", "tr"}
+
+
+def ident(name):
+    """a C identifier as a Lean identifier"""
+    return name + "_c" if name in LEAN_KEYWORDS else name
 
 
 # ----------------------------------------------------------------------------- types
@@ -169,7 +183,7 @@ class Fn:
         if k == "ParenExpr":
             return self.path_of(n["inner"][0])
         if k == "DeclRefExpr":
-            return n["referencedDecl"]["name"]
+            return ident(n["referencedDecl"]["name"])
         if k == "MemberExpr":
             base = n["inner"][0]
             while base["kind"] in ("ImplicitCastExpr", "ParenExpr") and base.get("castKind", "LValueToRValue") in ("LValueToRValue", "NoOp"):
@@ -189,7 +203,7 @@ class Fn:
             if inner["kind"] == "CallExpr" and self.callee_name(inner) == "__errno_location":
                 return "errno"
             if inner["kind"] == "DeclRefExpr":
-                return "deref_" + inner["referencedDecl"]["name"]
+                return "deref_" + ident(inner["referencedDecl"]["name"])
         return None
 
     def is_union_member_access(self, n):
@@ -634,7 +648,7 @@ class Fn:
             s = self.strip(a)
             roots = []
             if s["kind"] == "DeclRefExpr" and ctype(s.get("type", {}))[0] == "P":
-                root = s["referencedDecl"]["name"]
+                root = ident(s["referencedDecl"]["name"])
                 roots = [p for p in env if p.startswith(root + "_") and p in self.memvars]
                 roots += [p for p in env if p == "deref_" + root]
             elif s["kind"] == "UnaryOperator" and s["opcode"] == "&":
@@ -676,7 +690,7 @@ class Fn:
                 if d["kind"] != "VarDecl":
                     return decls(ds[1:], e)
                 ty = ctype(d.get("type", {}))
-                nm = d["name"]
+                nm = ident(d["name"])
                 q = d.get("type", {}).get("desugaredQualType", d.get("type", {}).get("qualType", ""))
                 if q.rstrip().endswith("]") and "init" not in d:
                     # a local array: an object of its own, known by its (abstract, non-null) address
@@ -882,7 +896,7 @@ class Fn:
         body = None
         for c in fn.get("inner", []):
             if c["kind"] == "ParmVarDecl":
-                self.params.append((c["name"], ctype(c.get("type", {}))))
+                self.params.append((ident(c["name"]), ctype(c.get("type", {}))))
             elif c["kind"] == "CompoundStmt":
                 body = c
         if body is None:
